@@ -13,7 +13,7 @@ SYS_FLAGS = [1, 2, 3, 4, 5]
 class TraceGen:
     def __init__(self, rng, run: StoreRun, sessions, *, boxes=(1,), idle=True,
                  readonly_sessions=(), weights=None, flipflop: float = 0.0,
-                 group: float = 0.0, deliveries: bool = True) -> None:
+                 group: float = 0.0, deliveries: bool = True, plain_deliveries: bool = False) -> None:
         self.rng = rng
         self.run = run
         self.sessions = list(sessions)
@@ -25,6 +25,7 @@ class TraceGen:
         self.group = group         # probability of starting a "one log record, several uids" episode
         self.queue: list[tuple] = []   # labels of a running episode, executed back to back
         self.deliveries = deliveries   # whether episodes may deliver messages without a connection
+        self.plain_deliveries = plain_deliveries   # maildir: an MDA drops a file without flags/info
         self.w = {'append': 9, 'store': 16, 'expunge': 10, 'uidexpunge': 5, 'copy': 5, 'move': 7,
                   'fetch': 14, 'search': 8, 'noop': 10, 'check': 3, 'touch': 2, 'close': 1,
                   'idle': 3, 'select': 2, 'deliver': 2}
@@ -148,7 +149,50 @@ class TraceGen:
         rng = self.rng
         run = self.run
         ready = [s for s in self.sessions if s not in run.idle and run.selected(s) is not None]
-        if rng.random() < 0.75 or not self.deliveries:
+        r0 = rng.random()
+        if self.plain_deliveries and r0 < 0.35 and ready:
+            # maildir: a file delivered from outside (no info part in its name, never flagged),
+            # then the housekeeping of CHECK, then somebody else looks
+            x = rng.choice(ready)
+            box = self._boxnum(run.selected(x))
+            self.next_content += 1
+            labels = [('deliver', box, [], rng.random() < 0.6, self.next_content)]
+            if rng.random() < 0.5:
+                labels.append(('cmd', rng.choice(ready), ('noop',)))
+            labels.append(('cmd', x, ('check',)))
+            labels.append(('cmd', rng.choice(ready), ('noop',)))
+            return labels
+        if 0.5 <= r0 < 0.75:
+            # B expunges a message that is not A's last one; A learns it during a non-UID
+            # FETCH/STORE/SEARCH (the expunge stays hidden, A's numbering must not move), then
+            # A copies or moves by a sequence number above it
+            cands = [s for s in ready if len(run.selected(s)._messages._sorted) >= 3]
+            if not cands:
+                return []
+            a = rng.choice(cands)
+            sel_a = run.selected(a)
+            box = self._boxnum(sel_a)
+            others = [s for s in ready if s != a and self._boxnum(run.selected(s)) == box
+                      and not run.selected(s).readonly]
+            if not others:
+                return []
+            b = rng.choice(others)
+            view = list(sel_a._messages._sorted)
+            k = rng.randint(1, len(view) - 1)
+            j = rng.randint(k + 1, len(view))
+            uid = view[k - 1]
+            hide = rng.choice([('fetch', [(1, '*')], False, False, False),
+                               ('store', [j], False, 'add', [5], rng.random() < 0.5),
+                               ('search', False, None, [])])
+            if hide[0] == 'store' and sel_a.readonly:
+                hide = ('fetch', [(1, '*')], False, False, False)
+            kind = 'copy' if sel_a.readonly or rng.random() < 0.5 else 'move'
+            return [('cmd', b, ('store', [uid], True, 'add', [2], True)),
+                    ('cmd', b, ('expunge', [uid])),
+                    ('cmd', a, hide),
+                    ('cmd', a, (kind, [j] if rng.random() < 0.6 else [(j, '*')], False,
+                                self.dest_box(a), None))]
+        if r0 < 0.5 or not self.deliveries:
             # A marks 2-3 messages \\Deleted and expunges them with ONE EXPUNGE; B, whose view is
             # stale, then addresses a strict subset of them by UID
             cands = [s for s in ready if not run.selected(s).readonly
@@ -227,8 +271,8 @@ class TraceGen:
                                s in self.readonly_sessions or rng.random() < 0.15))
         if k == 'deliver':
             self.next_content += 1
-            return ('deliver', rng.choice(self.boxes), self.flags(), rng.random() < 0.7,
-                    self.next_content)
+            return ('deliver', rng.choice(self.boxes), [] if self.plain_deliveries else self.flags(),
+                    rng.random() < 0.7, self.next_content)
         if k == 'append':
             msgs = []
             for _ in range(1 if rng.random() < 0.8 else 2):
